@@ -473,6 +473,54 @@ func (e *Engine) FullQueryCheck(tx *Tx, pageSizes []uint64) {
 			}
 		}
 	}
+	// unusual but valid pagination requests, judged against the key-ordered listing obtained above
+	for _, l := range listers {
+		n := len(l.want)
+		fwd, _, err := walkQuery(c, l.name, pageMode{1000, true, false}, l.fetch)
+		if err != nil || len(fwd) != n {
+			continue // already reported by the walks above
+		}
+		rev := make([]string, n)
+		for i, x := range fwd {
+			rev[n-1-i] = x
+		}
+		first := func(xs []string, k int) []string {
+			if k > len(xs) {
+				k = len(xs)
+			}
+			return xs[:k]
+		}
+		odd := func(name string, req *query.PageRequest, want []string, wantTotal int) {
+			rc.Cov.Assert("C19.odd-pagination." + l.name)
+			rc.Cov.Cell("C19_odd_pagination", l.name+"/"+name)
+			got, pr, err := l.fetch(req)
+			if err != nil {
+				e.viol([]string{"C19"}, "query-tap/odd-pagination", "odd-page-error:"+l.name+":"+name, fmt.Sprintf("%s with %s: %v", l.name, name, err), e.caseOf(tx, ""))
+				return
+			}
+			if strings.Join(got, "\n") != strings.Join(want, "\n") {
+				e.viol([]string{"C19"}, "query-tap/odd-pagination", "odd-page-content:"+l.name+":"+name,
+					fmt.Sprintf("%s with %s returned %d items %v, expected %d %v", l.name, name, len(got), clip(got), len(want), clip(want)), e.caseOf(tx, ""))
+			} else if wantTotal >= 0 && (pr == nil || int(pr.Total) != wantTotal) {
+				e.viol([]string{"C19"}, "query-tap/odd-pagination", "odd-page-total:"+l.name+":"+name,
+					fmt.Sprintf("%s with %s reported total %v, expected %d", l.name, name, pr, wantTotal), e.caseOf(tx, ""))
+			}
+		}
+		odd("no-pagination", nil, first(fwd, 100), -1)
+		odd("limit-0", &query.PageRequest{Limit: 0}, first(fwd, 100), -1)
+		odd("limit-0-count-total", &query.PageRequest{Limit: 0, CountTotal: true}, first(fwd, 100), n)
+		odd("reverse-default-limit", &query.PageRequest{Reverse: true}, first(rev, 100), -1)
+		odd("offset-at-end", &query.PageRequest{Offset: uint64(n), Limit: 3, CountTotal: true}, nil, n)
+		odd("offset-beyond-end", &query.PageRequest{Offset: uint64(n) + 7, Limit: 3, CountTotal: true}, nil, n)
+		odd("offset-last", &query.PageRequest{Offset: uint64(max(n-1, 0)), Limit: 5}, fwd[max(n-1, 0):], -1)
+		odd("huge-limit", &query.PageRequest{Limit: 1 << 62}, fwd, -1)
+		if n >= 2 {
+			// continue from the key that a one-item page hands out, with count_total set as well
+			if _, pr, err := l.fetch(&query.PageRequest{Limit: 1}); err == nil && pr != nil && len(pr.NextKey) > 0 {
+				odd("key-with-count-total", &query.PageRequest{Key: pr.NextKey, Limit: 1000, CountTotal: true}, fwd[1:], -1)
+			}
+		}
+	}
 	// single-item queries over the probe pools
 	for _, k := range AttesterPool {
 		for st := 0; st < 4; st++ {
